@@ -145,3 +145,42 @@ def parallel_build(tasks, fn, workers=14):
     ctx = mp.get_context("fork")
     with ctx.Pool(min(workers, len(tasks))) as pool:
         return pool.map(_pb_call, range(len(tasks)), chunksize=1)
+
+
+def budgeted(ck, tasks, build_fn, solve_fn, tier, budget_s=None, first=60):
+    """Build and solve `tasks` within a wall budget (thorough tier): the task list is shuffled (VERIF_SEED), a first chunk
+    measures the throughput, then as many further tasks as fit are taken. quick: everything in one round.
+    Returns (build results, solver results); the coverage (tasks covered / total) is recorded on ck.budget."""
+    import random
+    if budget_s is None:
+        budget_s = float(os.environ.get("VERIF_BUDGET_S", "2700"))
+    total = len(tasks)
+    if tier == "quick":
+        built = parallel_build(tasks, build_fn)
+        qs = [q for res in built if "queries" in res for q, _ in res["queries"]]
+        ck.budget = dict(tasks_total=total, tasks_covered=total)
+        return built, solve_fn(qs)
+    order = list(range(total))
+    random.Random(seed() + 4242).shuffle(order)
+    tasks = [tasks[i] for i in order]
+    built, results, done = [], [], 0
+    t_start = time.time()
+    chunk = min(first, total)
+    while done < total:
+        left = budget_s - (time.time() - ck.t0)
+        if done:
+            if left <= 0:
+                break
+            rate = (time.time() - t_start) / done
+            chunk = max(1, min(total - done, int(0.85 * left / rate), done * 4))
+        part = tasks[done:done + chunk]
+        b = parallel_build(part, build_fn)
+        qs = [q for res in b if "queries" in res for q, _ in res["queries"]]
+        results += solve_fn(qs)
+        built += b
+        done += len(part)
+        print("budget: %d of %d tasks done after %.0fs" % (done, total, time.time() - ck.t0), flush=True)
+    ck.budget = dict(tasks_total=total, tasks_covered=done, budget_s=budget_s)
+    if done < total:
+        ck.note("wall budget of %.0fs reached: %d of %d (program, layout) tasks explored (seeded shuffle); the rest is outside this run's claim" % (budget_s, done, total))
+    return built, results
